@@ -82,6 +82,12 @@ def splices(ctx):
             if m == ke2 or m == ke2_same_req:
                 continue
             reject(m, "spliced with %s (field mask %d)" % (name, mask))
+    # structured multi-byte alterations of the two MAC-protected tags: the server MAC field, and the envelope tag inside the
+    # masked response (masking is an xor pad, so an xor on the masked bytes is the same xor on the tag)
+    tag_lo = L.Noe + NN + L.Npk + NN
+    for (lo, hi, nm) in ((fb[5][0], fb[5][1], "server MAC"), (tag_lo, tag_lo + L.Nh, "masked envelope tag"), (fb[2][0], fb[2][0] + L.Npk, "masked server key")):
+        for label, m in structured_alterations(rnd, ke2, lo, hi, n_pairs=12, n_random=40):
+            reject(m, "with %s altered: %s" % (nm, label))
     # re-randomised fields
     for i, (a, b) in enumerate(fb):
         if i in (0, 4):
